@@ -38,40 +38,53 @@ Proof.
   destruct ((n0 =? n1)%N && (event x =? event d)%N); [reflexivity|apply IH].
 Qed.
 
-(* counters: appends happen only for entries of the same signal time *)
+(* counters: at most one append per call (34afac6), only in an entry of the same signal time, only while
+   descAdded is still false, and it sets descAdded *)
 Lemma scan_descs_napp : forall d same ds n a n' a' r,
-  scan_descs d same ds n a = (n', a', r) -> n <= n' /\ (n < n' -> same = true).
+  scan_descs d same ds n a = (n', a', r) ->
+  n <= n' /\ n' <= S n /\ (n < n' -> same = true /\ a = false /\ a' = true) /\ (a = true -> a' = true).
 Proof.
   intros d same. induction ds as [|x t IH]; intros n a n' a' r H; simpl in H.
-  - inversion H; subst. split; lia.
-  - destruct (same && Equal d x); [inversion H; subst; split; lia|].
-    assert (G : forall b, scan_descs d same t (if same then S n else n) b = (n', a', r) -> n <= n' /\ (n < n' -> same = true)).
-    { intros b Hk. apply IH in Hk. destruct Hk as [K1 K2]. destruct same; split; try lia; auto. }
-    destruct ((event d =? event x)%N && (ty x =? 64)%N && (ty d =? 64)%N); [|eapply G; eassumption].
+  - inversion H; subst. repeat split; try lia; auto.
+  - destruct (same && Equal d x); [inversion H; subst; repeat split; try lia; auto|].
+    assert (G : scan_descs d same t (if same && negb a then S n else n) (if same then true else a) = (n', a', r) ->
+                n <= n' /\ n' <= S n /\ (n < n' -> same = true /\ a = false /\ a' = true) /\ (a = true -> a' = true)).
+    { intros Hk. apply IH in Hk. destruct Hk as (K1 & K2 & K3 & K4).
+      destruct same, a; simpl in *.
+      - assert (NK : ~ n < n') by (intros X; destruct (K3 X) as (_ & Y & _); discriminate).
+        split; [lia|]. split; [lia|]. split; [intros X; contradiction|intros _; now apply K4].
+      - assert (NK : ~ S n < n') by (intros X; destruct (K3 X) as (_ & Y & _); discriminate).
+        split; [lia|]. split; [lia|]. split; [intros _; repeat split; now apply K4|discriminate].
+      - assert (NK : ~ n < n') by (intros X; destruct (K3 X) as (Y & _); discriminate).
+        split; [lia|]. split; [lia|]. split; [intros X; contradiction|intros _; now apply K4].
+      - assert (NK : ~ n < n') by (intros X; destruct (K3 X) as (Y & _); discriminate).
+        split; [lia|]. split; [lia|]. split; [intros X; contradiction|discriminate]. }
+    assert (St : forall e, (if same && negb a then S n else n, if same then true else a, Some e) = (n', a', r) ->
+                n <= n' /\ n' <= S n /\ (n < n' -> same = true /\ a = false /\ a' = true) /\ (a = true -> a' = true)).
+    { intros e He. inversion He; subst. destruct same, a; simpl; repeat split; try lia; auto. }
+    destruct ((event d =? event x)%N && (ty x =? 64)%N && (ty d =? 64)%N); [|exact (G H)].
     unfold StreamSwitchSignalId in H.
-    assert (St : forall b e, (if same then S n else n, b, Some e) = (n', a', r) -> n <= n' /\ (n < n' -> same = true)).
-    { intros b e He. inversion He; subst. destruct same; split; try lia; auto. }
     destruct (vss d); [|eapply St; eassumption]. destruct (vss x); [|eapply St; eassumption].
-    destruct ((n0 =? n1)%N && (event x =? event d)%N); [eapply St; eassumption|eapply G; eassumption].
+    destruct ((n0 =? n1)%N && (event x =? event d)%N); [eapply St; eassumption|exact (G H)].
 Qed.
 
 (* a scan that runs through an entry without stopping *)
 Lemma scan_descs_through : forall d same ds n a, first_stop d same ds = None ->
-  scan_descs d same ds n a = (if same then n + length ds else n, a || (same && negb (is_nil ds)), None).
+  scan_descs d same ds n a =
+  (if same && negb a && negb (is_nil ds) then S n else n, a || (same && negb (is_nil ds)), None).
 Proof.
   intros d same. induction ds as [|x t IH]; intros n a H; simpl in *.
-  - rewrite Nat.add_0_r, andb_false_r, orb_false_r. destruct same; reflexivity.
+  - rewrite !andb_false_r, orb_false_r. reflexivity.
   - unfold elem_stop, StreamSwitchSignalId in *.
     destruct (same && Equal d x); [discriminate|].
-    assert (G : scan_descs d same t (if same then S n else n) (if same then true else a) =
-                (if same then n + S (length t) else n, a || (same && true), None)).
-    { rewrite IH.
-      - destruct same; simpl.
-        + rewrite Nat.add_succ_r. now rewrite orb_true_r.
-        + now rewrite !orb_false_r.
-      - destruct ((event d =? event x)%N && (ty x =? 64)%N && (ty d =? 64)%N); [|assumption].
-        destruct (vss d); [|discriminate]. destruct (vss x); [|discriminate].
-        destruct ((n0 =? n1)%N && (event x =? event d)%N); [discriminate|assumption]. }
+    assert (Ht : first_stop d same t = None).
+    { destruct ((event d =? event x)%N && (ty x =? 64)%N && (ty d =? 64)%N); [|assumption].
+      destruct (vss d); [|discriminate]. destruct (vss x); [|discriminate].
+      destruct ((n0 =? n1)%N && (event x =? event d)%N); [discriminate|assumption]. }
+    assert (G : scan_descs d same t (if same && negb a then S n else n) (if same then true else a) =
+                (if same && negb a && true then S n else n, a || (same && true), None)).
+    { rewrite (IH _ _ Ht). destruct same, a; simpl; try reflexivity; try (destruct t; reflexivity);
+        try (now rewrite ?andb_false_r, ?orb_false_r). }
     destruct ((event d =? event x)%N && (ty x =? 64)%N && (ty d =? 64)%N); [|exact G].
     destruct (vss d); [|discriminate]. destruct (vss x); [|discriminate].
     destruct ((n0 =? n1)%N && (event x =? event d)%N); [discriminate|exact G].
@@ -110,9 +123,9 @@ Lemma scan_ring_grown : forall d p ring a, Forall2 (grown1 d p) ring (fst (fst (
 Proof.
   intros d p. induction ring as [|[e|] t IH]; intros a; simpl; [constructor| |].
   - destruct (scan_descs d (epts e =? p)%N (edescs e) 0 a) as [[napp a1] r1] eqn:S.
-    apply scan_descs_napp in S. destruct S as [_ S].
+    apply scan_descs_napp in S. destruct S as (_ & _ & S & _).
     assert (G : grown1 d p (Some e) (Some (mkElem (epts e) (edescs e ++ repeat d napp)))).
-    { simpl. split; auto. exists napp. split; auto. }
+    { simpl. split; auto. exists napp. split; auto. intros X. now destruct (S X). }
     destruct r1.
     + simpl. constructor; [exact G|]. clear. induction t; constructor; auto using grown1_refl.
     + specialize (IH a1). destruct (scan_ring d p t a1) as [[t' a2] r]. simpl in *. constructor; assumption.
@@ -149,18 +162,21 @@ Lemma scan_added_found : forall d p ring a ring1 a', haspts d = true ->
 Proof.
   intros d p ring. induction ring as [|[e|] t IH]; intros a ring1 a' Hd H Ha; simpl in H.
   - inversion H; subst. now left.
-  - pose proof (scan_descs_stop d (epts e =? p)%N (edescs e) 0 a) as S.
-    destruct (scan_descs d (epts e =? p)%N (edescs e) 0 a) as [[napp a1] r1] eqn:SD. simpl in S.
+  - destruct a; [now left|].
+    pose proof (scan_descs_stop d (epts e =? p)%N (edescs e) 0 false) as S.
+    destruct (scan_descs d (epts e =? p)%N (edescs e) 0 false) as [[napp a1] r1] eqn:SD. simpl in S.
     destruct r1 as [x|]; [discriminate|].
-    rewrite (scan_descs_through d _ _ 0 a (eq_sym S)) in SD. inversion SD; subst napp a1. clear SD.
+    rewrite (scan_descs_through d _ _ 0 false (eq_sym S)) in SD. inversion SD; subst napp a1. clear SD.
     destruct (scan_ring d p t _) as [[t' a2] r] eqn:R. inversion H; subst ring1 a2 r. clear H.
-    simpl. 
-    destruct (epts e =? p)%N eqn:Sm; simpl in *.
-    + rewrite (first_stop_app_repeat d true _ _ Hd (fun _ => eq_refl)). rewrite <- S.
-      destruct (edescs e) as [|x l] eqn:Ee; simpl.
-      * rewrite orb_false_r in R. apply (IH _ _ _ Hd R Ha).
-      * now right.
-    + rewrite app_nil_r, <- S. rewrite orb_false_r in R. apply (IH _ _ _ Hd R Ha).
+    cbn [ring_stop entry_stop epts edescs].
+    set (k := if (epts e =? p)%N && negb false && negb (is_nil (edescs e)) then 1 else 0) in *.
+    assert (Hk : 0 < k -> (epts e =? p)%N = true).
+    { unfold k. destruct (epts e =? p)%N; simpl; [auto|lia]. }
+    rewrite (first_stop_app_repeat d _ _ k Hd Hk), <- S.
+    destruct ((epts e =? p)%N && negb (is_nil (edescs e))) eqn:B.
+    + right. unfold k. rewrite andb_true_r, B. reflexivity.
+    + assert (k = 0) as -> by (unfold k; rewrite andb_true_r, B; reflexivity). simpl.
+      simpl in R. apply (IH _ _ _ Hd R Ha).
   - destruct (scan_ring d p t a) as [[t' a2] r] eqn:R. inversion H; subst ring1 a2 r. simpl. apply (IH _ _ _ Hd R Ha).
 Qed.
 
